@@ -10,3 +10,5 @@ def run(ctx):
     regex_cache(ctx)
     from ..scen_misc import record_local_premise
     record_local_premise(ctx)
+    from ..conform import conformance
+    conformance(ctx, ['pipeline'])      # the references the obligations are stated against, compared with jawk::go on concrete runs (validates the oracles; never decides)
